@@ -251,7 +251,7 @@ def run(prop, tier):
     ops.append({"op": "trig_state", "x": {"ms": 5000, "expect": sum(len(v) for v in exp.values())}})
     ops.append({"op": "shutdown"})
     env = dict(vlib.GOENV, GORACE="halt_on_error=0 exitcode=0")
-    robs = vlib.run_cases(rbin, [{"id": "stress", "ops": ops}], timeout=600, env=env, tag="c32race")
+    robs = vlib.run_cases(rbin, [{"id": "stress", "ops": ops}], timeout=600, env=env, tag="c32race", stderr_tail=4000000)
     shutil.rmtree(root, ignore_errors=True)
     o = robs.get(json.dumps("stress"))
     import readers
